@@ -252,7 +252,11 @@ func c13WholeBody(t *testing.T, s *sim.Scn, o *sim.Outcome) {
 
 func c13WholeRun(t *testing.T, s *sim.Scn) *sim.Outcome {
 	o := sim.NewOutcome()
-	if p := sim.Bubble(t, func() { c13WholeBody(t, s, o) }); p != nil {
+	body := c13WholeBody
+	if s.Cfg["backlog"] == 1 {
+		body = c13BacklogBody
+	}
+	if p := sim.Bubble(t, func() { body(t, s, o) }); p != nil {
 		msg := fmt.Sprint(p)
 		if strings.Contains(msg, "deadlock") {
 			// goroutines of libp2p / go-header / mocknet that stay parked after Run has returned are not activities
@@ -301,6 +305,8 @@ func TestC13W(t *testing.T) {
 		Components:  map[string]string{"node.FullNode.Run (start-up, worker fan-out, shutdown, cache save)": "real", "pkg/p2p, pkg/sync (go-header, gossipsub)": "real over libp2p mocknet", "block.Manager loops": "real, concurrent"},
 		Gen:         c13WholeGen,
 		Run:         c13WholeRun,
+		// directed: stop while a catching-up full node has more headers queued than the event channel holds
+		Directed: []*sim.Scn{{Cfg: map[string]int64{"backlog": 1, "blocks": 10300, "stopms": 300}}, {Cfg: map[string]int64{"backlog": 1, "blocks": 500, "stopms": 100}}},
 		Workers:     8,
 		MaxQuick:    200, MaxThorough: 2500,
 		ReplayAttempts: 20,
